@@ -381,6 +381,9 @@ func seqProfile0(prop, tier string) *SeqProfile {
 		g.Rollovers = []int64{60, 100, 150, 300, 5000}
 		g.TimeMode = "mono"
 		ploss := prop == "C06"
+		if ploss {
+			g.AutoSyncOneIn = 2 // every AutoSync Publish acknowledges: many more points at which something must be durable
+		}
 		var design []DesignRun
 		if ploss {
 			design = []DesignRun{
